@@ -324,6 +324,67 @@ def k_history(run, case):
     settings.reset()
 
 
+def k_upgrade_then(run, case):
+    """a command that is the FIRST evo process after a version change: the upgrade and the edit
+    happen in the same (real, fresh) process"""
+    from evo.tools import settings
+    rng = run.rng(case)
+    D = defaults()
+    path = settings_path()
+    cur = dict(D)
+    user = {}
+    safe = [k for k, v in D.items() if isinstance(v, (bool, int, float, list))]  # (string settings are
+    # interpreted by third-party code while evo_config prints the file: keep their values valid)
+    for k in [safe[i] for i in rng.choice(len(safe), size=6, replace=False)]:
+        v = D[k]
+        user[k] = (not v) if isinstance(v, bool) else (v + 2 if isinstance(v, (int, float)) else
+                                                      (v + ["x"] if isinstance(v, list) else v + "_user"))
+    cur.update(user)
+    dropped = [k for k in D if k not in user and rng.random() < .12]
+    for k in dropped:
+        cur.pop(k)
+    open(path, "w").write(json.dumps(cur, indent=4, sort_keys=True))
+    open(settings.USER_ASSETS_VERSION_PATH, "w").write("v0.0.1-old")
+    cmd = case.get("cmd") or ["reset_subset", "reset_all", "set"][rng.integers(3)]
+    keys = list(D)
+    if cmd == "reset_subset":
+        sub = list(user)[:3] + [keys[i] for i in rng.choice(len(keys), size=2, replace=False)]
+        argv = ["reset"] + sub
+    elif cmd == "reset_all":
+        sub = keys
+        argv = ["reset", "-y"]
+    else:
+        sub = []
+        argv = ["set", "plot_linewidth", "4.25", "plot_split"]
+    pr = cli.run_subprocess("config", argv, os.environ.get("VMON_WORK", "."), os.environ["HOME"])
+    after = load_file()
+    run.seen(case, core.digest(cmd, sorted(user), dropped), cls=["first command after a version change: " + cmd],
+             sample={"argv": argv, "user_keys": sorted(user), "dropped": dropped, "rc": pr.returncode})
+    if not run.check(pr.returncode == 0, "first command after a version change succeeds", case,
+                     "evo_config %s failed right after a version change: %s" % (argv, pr.stderr[-300:]),
+                     key="upgrade-then:failed"):
+        settings.reset()
+        return
+    ok = set(after) == set(D)
+    bad = None
+    for k in D:
+        if cmd == "set" and k == "plot_linewidth":
+            want = 4.25
+        elif cmd == "set" and k == "plot_split":
+            want = not cur.get(k, D[k])
+        elif k in sub:
+            want = D[k]
+        else:
+            want = cur.get(k, D[k])
+        if k not in after or not same_json_value(after[k], want):
+            ok = False
+            bad = (k, after.get(k), want)
+    run.check(ok, "reset / set in the upgrading process restore defaults and keep user values", case,
+              "evo_config %s as the first command after a version change: wrong settings %s" % (argv, bad),
+              key="upgrade-then:" + cmd)
+    settings.reset()
+
+
 def k_container(run, case):
     from evo.tools import settings
     rng = run.rng(case)
@@ -525,7 +586,8 @@ def k_merge_config(run, case):
         os.remove(cfg_path)
 
 
-KINDS = {"history": k_history, "container": k_container, "generate": k_generate, "merge_config": k_merge_config}
+KINDS = {"history": k_history, "container": k_container, "generate": k_generate, "merge_config": k_merge_config,
+         "upgrade_then": k_upgrade_then}
 
 GEN_CORPUS = [
     ("ape", ["--downsample", "500", "--t_offset", "-0.5", "--n_to_align", "-1"]),
@@ -545,6 +607,8 @@ def main(run):
         k_history(run, run.case("history", i))
     for i in run.mine({"quick": 100, "thorough": 2000}[run.tier]):
         k_container(run, run.case("container", i))
+    for i in run.mine({"quick": 24, "thorough": 400}[run.tier]):
+        k_upgrade_then(run, run.case("upgrade_then", i, cmd=["reset_subset", "reset_all", "set"][i % 3]))
     for i in run.mine({"quick": 100, "thorough": 2000}[run.tier]):
         k_merge_config(run, run.case("merge_config", i))
     run.need("set keeps the key set", "set changes only the named keys", "boolean parameter stays boolean",
@@ -552,6 +616,7 @@ def main(run):
              "reset(subset) restores exactly those keys", "reset -y restores all defaults",
              "hard merge: other wins / soft merge: existing values kept",
              "upgrade changes no value the user has set", "upgrade adds every missing default key",
+             "reset / set in the upgrading process restore defaults and keep user values",
              "unknown parameter cannot be added to loaded settings", "update_existing_keys never adds keys",
              "config file has priority over command-line values", "settings file untouched by -c",
              "generated config has the same effect as the arguments (int)",
